@@ -35,7 +35,10 @@
          writes them: C19_glue_matching, C19_glue_compare_recursive, C19_glue_child_names
        compare_molrecs (exact mode): C19_molrecs_is_recursive, C19_molrecs_normalise_idempotent,
          C19_molrecs_version_forgiven, C19_molrecs_bond_orientation, C19_molrecs_other_keys_untouched, C19_glue_molrecs
-         (relative_geoms="align": not covered);  Model.compare: C19_protomodel_compare (pydantic .dict(): trusted, corr)
+         (relative_geoms="align": not covered);  Model.compare: C19_protomodel_compare; the model-to-dict conversion in
+         front of it and call history (wave 4): C19_model_compare_history_free, C19_model_no_false_pass_after_history,
+         C19_dict_leaves_shared_config, C19_dict_exclude_spec, C19_glue_model_dict (ProtoModel.dict generated);
+         pydantic's BaseModel.dict itself: trusted, corr (streams dict-kwargs, model-history)
     S4 message / return-handler options do not change the verdict
          C19_options_inert, C19_handler_receives_verdict (compare_values, compare, compare_recursive),
          C19_options_inert_molrecs, C19_handler_receives_verdict_molrecs (compare_molrecs incl. quiet=(verbose == 0),
@@ -48,6 +51,7 @@ Require Import QV.Model.Compare QV.Proofs.Compare.
 From Coq Require Import Rdefinitions Rbasic_fun R_sqrt.
 Require QV.Proofs.CompareReal QV.Proofs.CompareSpecial QV.Proofs.CompareMore.
 Require Import QV.Gen.CompareGlue QV.Proofs.CompareGlue.
+Require Import QV.Model.ModelDict QV.Proofs.ModelDict.
 Import ListNotations.
 Local Open Scope string_scope.
 
@@ -445,6 +449,40 @@ Theorem C19_public_verdicts : forall ro v rm b,
   (forall o e c, (exists r, protomodel_compare_full handle_return ro o e c = Ok r /\ ret_verdict r = b) <-> compare_recursive o e c = Ok b).
 Proof. exact public_verdicts. Qed.
 
+(** Model-to-dict conversion and call history (Model/ModelDict.v: ProtoModel.dict / serialize / json with the class-level
+    exclude set that every model class shares carried as explicit state).
+    Any number of earlier conversions — on any models of any classes, with any exclude= / exclude_unset= — leave that
+    shared set as they found it *)
+Theorem C19_dict_leaves_shared_config : forall h s, after_history s h = s.
+Proof. exact after_history_unchanged. Qed.
+
+(** a name is excluded from ONE conversion exactly when that call's exclude= names it or the shared set holds it *)
+Theorem C19_dict_exclude_spec : forall s cf kw x,
+  smem x (fst (fst (pm_dict_kwargs s cf kw))) = smem x (or_empty (kw_exclude kw)) || smem x s.
+Proof. exact dict_exclude_spec. Qed.
+
+(** Model.compare / compare_recursive on two models after ANY history is the comparison of all their fields (for a
+    class whose own Config skips defaults: all explicitly set fields): no field is dropped because of earlier calls *)
+Theorem C19_model_compare_history_free : forall h o fa fb a b,
+  protomodel_compare_after h o fa fb a b = protomodel_compare o (visible fa a) (visible fb b).
+Proof. exact model_compare_history_free. Qed.
+
+(** ... so a failing site that is not excused is never passed, whatever was called before *)
+Theorem C19_model_no_false_pass_after_history : forall h o fa fb a b n,
+  Fails (lo_of o) false "root" (visible fa a) (visible fb b) n -> ~ Excused o (visible fa a) (visible fb b) n ->
+  protomodel_compare_after h o fa fb a b <> Ok true.
+Proof. exact model_no_false_pass_after_history. Qed.
+
+(** the statements of ProtoModel.dict as generated from basemodels.py (the exclude expression built with `|`, the
+    exclude_unset default and override, nothing modified in place), the Config defaults and serialize's forwarding
+    are the hand model *)
+Theorem C19_glue_model_dict :
+  (forall s cf kw, pm_dict_kwargs s cf kw = ((gen_dict_exclude s kw, gen_dict_exclude_unset cf kw), gen_dict_shared_after s kw))
+  /\ gen_shared0 = shared0 /\ gen_protoflags0 = protoflags0
+  /\ (forall ex eu, gen_serialize_kw ex eu = serialize_kw ex eu)
+  /\ gen_serialize_forwards = ["include"; "exclude"; "exclude_unset"; "exclude_defaults"; "exclude_none"].
+Proof. exact glue_model_dict. Qed.
+
 (* ------------------------------------------------------------------------------------------ *)
 (** Non-vacuity and regression examples (kernel evaluation of the model, binary64 by the kernel primitives). *)
 
@@ -532,6 +570,21 @@ Example C19_ex_molrecs :
   (exists t, massage true rec_e = Ok t /\ massage false t = Ok t /\ massage true t = Raise EKey).
 Proof. repeat split. eexists. repeat split. Qed.
 
+(** history: another model serialised with exclude=["molecule"; "id"], a Molecule-like class (skip defaults) converted with
+    exclude_unset=false; then two inputs differing only in "molecule" are compared: False, as in a fresh process *)
+Example C19_ex_history :
+  let skipcls := {| skip_defaults := true; force_skip := false |} in
+  let other : fields := [("molecule", (true, fl 9)); ("id", (false, TSc false SNone))] in
+  let h : list call := [(protoflags0, serialize_kw (Some ["molecule"; "id"]) None, other);
+                        (skipcls, {| kw_exclude := Some ["geometry"]; kw_exclude_unset := Some false |}, other)] in
+  let a : fields := [("molecule", (true, fl 3)); ("driver", (true, TSc false (SStr "energy")))] in
+  let b : fields := [("molecule", (true, fl 3.5)); ("driver", (true, TSc false (SStr "energy")))] in
+  protomodel_compare_after h (r6 [] (EpBool false)) protoflags0 protoflags0 a b = Ok false /\
+  protomodel_compare_after h (r6 ["molecule"] (EpBool false)) protoflags0 protoflags0 a b = Ok true /\
+  protomodel_compare_after h (r6 [] (EpBool false)) protoflags0 protoflags0 a a = Ok true /\
+  fst (pm_dict shared0 protoflags0 (serialize_kw (Some ["molecule"; "id"]) None) other) = TDict [].
+Proof. cbv zeta. repeat split. Qed.
+
 (** the generated ladder on the node types whose branch depends on the order of the isinstance tests or on a numpy
     subclass relation: np.complex128 (also an np.number) and np.str_ are exact leaves, np.int64 / np.float64 go through
     compare_values, bool (an int) and np.bool_ are exact, a set is not understood *)
@@ -600,3 +653,8 @@ Print Assumptions C19_molrecs_other_keys_untouched.
 Print Assumptions C19_options_inert_molrecs.
 Print Assumptions C19_handler_receives_verdict_molrecs.
 Print Assumptions C19_public_verdicts.
+Print Assumptions C19_dict_leaves_shared_config.
+Print Assumptions C19_dict_exclude_spec.
+Print Assumptions C19_model_compare_history_free.
+Print Assumptions C19_model_no_false_pass_after_history.
+Print Assumptions C19_glue_model_dict.
